@@ -494,6 +494,16 @@ def mainConfig (routeArg : Option Text) (simple : Bool) : Option Config :=
       | none => none
       | some p => if p.isEmpty || p.length == 1 then some (.path p) else none
 
+/-- `UCMM.__init__` on a plain `UCMM` (no `--route-path`, no subclass attribute): the instance's route path
+comes from *its own* look at the configuration (`[UCMM] Route Path`); `none` = `parse_route_path` raises.
+What an earlier UCMM instance of the same process was configured with plays no role. -/
+def fileConfig (routePathEntry : Option Text) : Option Config :=
+  match routePathEntry with
+  | none => some .any
+  | some t => match parseRoutePath t with
+    | some p => some (.path p)
+    | none => none
+
 /-- `route_path == self.route_path` -/
 def eqCfg (rp : Option RoutePath) : Config → Bool
   | .path p => rp == some p
@@ -626,6 +636,7 @@ inductive Op where
   | gas (attr : Nat)                      -- Get Attribute Single @2/1/attr
   | sas (attr : Nat) (vs : List Nat)      -- Set Attribute Single @2/1/attr (whole attribute)
   | gaa                                   -- Get Attributes All @1/1 (no tag behind it)
+  | fwdOpen                               -- Forward Open (client.implicit): a connection is set up, no tag touched
   | unknown (frag : Bool := false)        -- Read Tag [Fragmented] of a tag that does not exist
 
 inductive Req where
@@ -685,6 +696,7 @@ def execOp (d : Dev) : Op → Option (Dev × OpResult)
         some ({ tags := d.tags.set (a - 1) vs, log := d.log ++ [⟨a - 1, true, 0, l.length⟩] }, ⟨0, [], false⟩)
       else none
   | .gaa => some (d, ⟨0, [], true⟩)
+  | .fwdOpen => some (d, ⟨0, [], true⟩)
   | .unknown _ => some (d, ⟨5, [], false⟩)   -- answered by the Message Router: path destination unknown
 
 def execOps (d : Dev) : List Op → Option (Dev × List OpResult)
